@@ -50,7 +50,12 @@ pub fn case(tape: &[u32]) -> CaseOutcome {
     cfg.fault = a.chance(1, 10);
     cfg.max_stanzas = 5;
     let source = pysrc::gen_source(&mut a);
-    let program = make_program(&mut t, &cfg);
+    let mut program = make_program(&mut t, &cfg);
+    // half of the programs in a free layout: blanks, line breaks and comments between tokens
+    let free_layout = a.chance(1, 2);
+    if free_layout {
+        program.printed = crate::dsl::print_random(&program.gen.prog, &mut a);
+    }
     let dsl = &program.printed.text;
     let file = match load_valid("C15", dsl) {
         Ok(f) => f,
@@ -63,6 +68,9 @@ pub fn case(tape: &[u32]) -> CaseOutcome {
     let mut report = CaseReport::default();
     report.evaluations = 0;
     let mut labels = vec![];
+    if free_layout {
+        labels.push("free-layout".to_string());
+    }
     let debug = Some((LOC.to_string(), VAR.to_string(), MATCH.to_string()));
     for lazy in [false, true] {
         let mode = if lazy { "lazy" } else { "strict" };
